@@ -1901,6 +1901,20 @@ example : FullyResolved axes12 [3, 3] (3/2) := by
     · intro hp; simp [axes12] at hp
 
 example : ballMask axes12 [3, 3] (3/2) (3 * 12 + 3) = true := by decide +kernel
+
+/-- the hypotheses do not confine centres to the box: the same droplet given by its periodic image three periods below / two periods above
+the box (seeded change C01-j replaced the periodic distance by one that is valid only within 1.5 periods) -/
+example : ((3/2 : ℚ) + 3/2 + 1) ^ 2 ≤ cdist2 axes12 [3 - 36, 3 + 24] [9, 9] := by decide +kernel
+
+example : FullyResolved axes12 [3 - 36, 3 + 24] (3/2) := by
+  intro k hk
+  have : k = 0 ∨ k = 1 := by simp [axes12] at hk; omega
+  rcases this with rfl | rfl <;>
+  · refine ⟨by norm_num, ?_, ?_⟩
+    · intro _; simp [axes12, Axis.length]; norm_num
+    · intro hp; simp [axes12] at hp
+
+example : ballMask axes12 [3 - 36, 3 + 24] (3/2) (3 * 12 + 3) = true := by decide +kernel
 end DV.C01
 
 /-! ### cylindrical grids (model of `_locate_droplets_in_mask_cylindrical`, `Model/Cyl.lean`) -/
